@@ -30,6 +30,7 @@ type pop struct {
 	Data   string `json:"data,omitempty"` // hex chunk
 	Prefix int    `json:"prefix,omitempty"`
 	Spare  int    `json:"spare,omitempty"` // spare capacity of the Sum argument
+	KB     int    `json:"kb,omitempty"`    // acquire: 0 = key in a fresh slice; 1 = key written into the caller's one reused key buffer; 2 = likewise, and the buffer is overwritten right after the call
 }
 
 type c18Case struct {
@@ -92,6 +93,7 @@ func runC18(c c18Case, st *c18Stats) error {
 			}
 		}
 	}()
+	keyBuf := make([]byte, 512) // one key buffer the caller fills again for every KB>0 acquire (keys are copied by crypto/hmac.New; a caller may reuse its buffer)
 	for i, o := range c.Ops {
 		s := slots[o.H%3]
 		switch o.Op {
@@ -100,11 +102,20 @@ func runC18(c c18Case, st *c18Stats) error {
 				continue
 			}
 			key := unhex(o.Key)
+			passed := key
+			if o.KB > 0 {
+				passed = keyBuf[:copy(keyBuf, key)]
+			}
 			ns := &slot{sha256: o.SHA256, key: key}
 			if o.SHA256 {
-				ns.h, ns.shadow = hmac.AcquireSHA256(key), stdhmac.New(sha256.New, key)
+				ns.h, ns.shadow = hmac.AcquireSHA256(passed), stdhmac.New(sha256.New, key)
 			} else {
-				ns.h, ns.shadow = hmac.AcquireSHA1(key), stdhmac.New(sha1.New, key)
+				ns.h, ns.shadow = hmac.AcquireSHA1(passed), stdhmac.New(sha1.New, key)
+			}
+			if o.KB == 2 {
+				for j := range passed {
+					passed[j] = 0xEE
+				}
 			}
 			if putSeen[o.SHA256] && st != nil && (lastKeyLen[o.SHA256] > 64) != (len(key) > 64) {
 				st.recycledAcrossBlock = true
@@ -202,6 +213,12 @@ func genPop() *rapid.Generator[pop] {
 		case "acquire":
 			o.SHA256 = rapid.IntRange(0, 2).Draw(rt, "alg") == 0
 			o.Key = genKey(rt)
+			o.KB = rapid.SampledFrom([]int{0, 0, 1, 1, 2}).Draw(rt, "keyBufMode")
+			if o.KB > 0 && rapid.Bool().Draw(rt, "stickyLen") {
+				// successive keys of one length in the caller's reused buffer
+				n := rapid.SampledFrom([]int{16, 16, 20, 70}).Draw(rt, "stickyKeyLen")
+				o.Key = hex.EncodeToString(gen.Bytes(rt, n, "key"))
+			}
 		case "write":
 			n := rapid.OneOf(rapid.IntRange(0, 70), rapid.SampledFrom([]int{0, 1, 55, 56, 63, 64, 65, 119, 128, 1000, 4096})).Draw(rt, "chunk")
 			o.Data = hex.EncodeToString(gen.Bytes(rt, n, "data"))
@@ -216,7 +233,7 @@ func genPop() *rapid.Generator[pop] {
 
 func c18Notes(rec *evid.Rec) {
 	rec.Note("rule", "rapid state machine over the internal pooled HMAC API: AcquireSHA1/AcquireSHA256(key) with up to three handles held at once, Write in random chunkings of messages 0..4096+ bytes, Sum with empty / non-empty, "+
-		"exact-capacity / spare-capacity arguments (repeated), Reset, further writes, Put; keys 0..300 bytes incl. 63/64/65 and long-after-short / short-after-long successions on recycled objects. A shadow crypto/hmac object receives the same operations: "+
+		"exact-capacity / spare-capacity arguments (repeated), Reset, further writes, Put; keys passed in fresh slices or in one key buffer that the caller refills for every acquire (and may overwrite right after the call); keys 0..300 bytes incl. 63/64/65 and long-after-short / short-after-long successions on recycled objects. A shadow crypto/hmac object receives the same operations: "+
 		"every Sum must equal it and the RFC 2104 value computed by definition over the bytes written since the last reset, leave its argument's prefix intact and not disturb the running state; Size/BlockSize as specified. "+
 		"A concurrent variant runs 2..16 goroutines of such sequences on the shared pools under the race detector. Non-trivial = an object obtained after a Put whose previous key was on the other side of the 64-byte block, or Reset directly followed by Sum "+
 		"(marshaled-state fast path); distinct by operation sequence.")
